@@ -26,6 +26,7 @@
             every lookup starts from the class database as the add left it *)
 From Coq Require Import ZArith List Bool.
 From CSS Require Import Base.Sx Base.PyList ClassDB.Model Searcher.Model Searcher.Run RuleDB.Model.
+From CSS Require Searcher.DecidersRun.
 Import ListNotations.
 Open Scope Z_scope.
 
@@ -159,4 +160,10 @@ Definition run_c14 (inp : sx) : sx :=
   let '(_, _, acc) :=
     fold_left (run_step T pack classes (nth 0 h 0) (negb (nth 1 h 0 =? 0)) (negb (nth 2 h 0 =? 0)))
               (sx_list (sx_nth inp 5)) (dict_init d0, rec_init d0, []) in
-  L (rev acc).
+  (* compatible extension: a 7th input field ( ver-sids sym-sids queue-pack packets ) (Searcher/DecidersRun.v) makes
+     the run append ONE more element to its output: the verdict of the deciders of Searcher/Deciders.v (the table
+     hypotheses of C14_search_stored_rules_handed_back) on the table this run received; without it nothing is added *)
+  match sx_list (sx_nth inp 6) with
+  | [] => L (rev acc)
+  | _ => L (rev acc ++ [Searcher.DecidersRun.run_hyps (t_empty T) (t_strats T) [] (sx_nth inp 6)])
+  end.
